@@ -3,24 +3,28 @@
 (* Python (PrintT(ToJson(case)) as an invariant).  Every wrapper starts all generators in their single initial  *)
 (* state and steps exactly one of them.                                                                         *)
 EXTENDS Totality, TotalityValues, Json
-AllInit == GInit /\ LInit /\ PInit /\ YInit /\ VInit /\ RInit
+AllInit == GInit /\ LInit /\ PInit /\ YInit /\ VInit /\ RInit /\ KInit
 \* G: modules made of fragments
 Init == AllInit
-Next == GNext /\ UNCHANGED <<lvars, pvars, yvars, vvars, rvars>>
+Next == GNext /\ UNCHANGED <<lvars, pvars, yvars, vvars, rvars, kvars>>
 EmitDone == stage = "done" => PrintT(ToJson([prog |-> prog]))
 \* P: the abstract position model (no emission: checked against PosProperty)
 PosInit == AllInit
-PosNext == PNext /\ UNCHANGED <<gvars, lvars, yvars, vvars, rvars>>
+PosNext == PNext /\ UNCHANGED <<gvars, lvars, yvars, vvars, rvars, kvars>>
 \* Y: layouts
 LayInit == AllInit
-LayNext == YNext /\ UNCHANGED <<gvars, lvars, pvars, vvars, rvars>>
+LayNext == YNext /\ UNCHANGED <<gvars, lvars, pvars, vvars, rvars, kvars>>
 EmitLayout == ystage = "done" => PrintT(ToJson([layout |-> lay]))
 \* V: pairs of Value terms; R: (object, type) pairs for the runtime API
 ValInit == AllInit
-ValNext == VNext /\ UNCHANGED <<gvars, lvars, pvars, yvars, rvars>>
+ValNext == VNext /\ UNCHANGED <<gvars, lvars, pvars, yvars, rvars, kvars>>
 EmitPair == vstage = "done" => PrintT(ToJson([a |-> vcase.a, b |-> vcase.b, fam |-> (vcase.a \in CallFamily /\ vcase.b \in CallFamily),
                                                       big |-> (IsBigUnion(vcase.a) \/ IsBigUnion(vcase.b))]))
 RtInit == AllInit
-RtNext == RNext /\ UNCHANGED <<gvars, lvars, pvars, yvars, vvars>>
+RtNext == RNext /\ UNCHANGED <<gvars, lvars, pvars, yvars, vvars, kvars>>
 EmitRt == rstage = "done" => PrintT(ToJson(rcase))
+\* K: constant-folding cases
+ConstInit == AllInit
+ConstNext == KNext /\ UNCHANGED <<gvars, lvars, pvars, yvars, vvars, rvars>>
+EmitConst == kstage = "done" => PrintT(ToJson([const |-> kcase]))
 =============================================================================
